@@ -172,6 +172,17 @@ def build():
     u.item(CO, 'const', 'ACCEPT_ENCODING_HEADER')
     u._emit('pub use crate::{CompressionEncoding, EnabledCompressionEncodings}; } }')
     u.raw(cg.CODEC)
+    u.raw('''pub open spec fn seen(e: CompressionEncoding, n: int) -> bool { (n > 0 && e == CompressionEncoding::Gzip) || (n > 1 && e == CompressionEncoding::Deflate) || (n > 2 && e == CompressionEncoding::Zstd) }
+impl EnabledCompressionEncodings {
+    // A-tonic-cfg-02: linked callee contract, proved by kani::cfg_is_enabled
+    #[verifier::external_body]
+    pub fn is_enabled(&self, encoding: CompressionEncoding) -> (r: bool) ensures r == self.enabled(encoding) { unimplemented!() }
+}
+''')
+    u._emit('impl CompressionEncoding {'); u._open_header = 'impl CompressionEncoding {'
+    u.exec_const(CO, 'ENCODINGS', props=['C05'], ensures=[Clause('T1_all_three_encodings_in_preference_order',
+                 'Self::ENCODINGS@.len() == 3 && Self::ENCODINGS@[0] == CompressionEncoding::Gzip && Self::ENCODINGS@[1] == CompressionEncoding::Deflate && Self::ENCODINGS@[2] == CompressionEncoding::Zstd')])
+    u.close('}')
     u.raw('''impl EnabledCompressionEncodings {
     // A-derive-03: #[derive(Default)] on EnabledCompressionEncodings: every slot None
     #[verifier::external_body]
@@ -254,6 +265,25 @@ def build():
     u.fn(G, 'apply_max_message_size_config', within=W, props=CF,
          ensures=[Clause('G6_given_limits_are_applied_absent_ones_keep_the_current_value',
                          'r.max_decoding_message_size == (if max_decoding_message_size is Some { max_decoding_message_size } else { self.max_decoding_message_size }) && r.max_encoding_message_size == (if max_encoding_message_size is Some { max_encoding_message_size } else { self.max_encoding_message_size }) && r.codec == self.codec && r.accept_compression_encodings == self.accept_compression_encodings && r.send_compression_encodings == self.send_compression_encodings')])
+    u.fn(G, 'apply_compression_config', within=W, props=CF,
+         requires=['self.accept_compression_encodings.wf()', 'self.send_compression_encodings.wf()'],
+         body_edits=[lambda t: t.sub_code('R22', r'for &encoding in CompressionEncoding::ENCODINGS \{', 'let verif_encs = CompressionEncoding::ENCODINGS; for verif_e in verif_encs { let encoding = *verif_e;')],
+         hints=[('before', 'if accept_encodings.is_enabled(encoding) {', '            proof { assert(it.index@ == 0 || it.index@ == 1 || it.index@ == 2); assert(encoding == verif_encs@[it.index@ as int]); assert(forall|e: CompressionEncoding| e != encoding ==> seen(e, it.index@ + 1) == seen(e, it.index@ as int)); assert(seen(encoding, it.index@ + 1)); }')],
+         loops={0: dict(iter='it', invariant=[
+             'it.seq().len() == 3 && *it.seq()[0] == CompressionEncoding::Gzip && *it.seq()[1] == CompressionEncoding::Deflate && *it.seq()[2] == CompressionEncoding::Zstd',
+             'verif_encs@.len() == 3 && verif_encs@[0] == CompressionEncoding::Gzip && verif_encs@[1] == CompressionEncoding::Deflate && verif_encs@[2] == CompressionEncoding::Zstd',
+             'forall|k: int| 0 <= k < 3 ==> *(#[trigger] it.seq()[k]) == verif_encs@[k]',
+             'this.accept_compression_encodings.wf() && this.send_compression_encodings.wf()',
+             'this.codec == self.codec && this.max_decoding_message_size == self.max_decoding_message_size && this.max_encoding_message_size == self.max_encoding_message_size',
+             'this.accept_compression_encodings.enabled(CompressionEncoding::Gzip) <==> (self.accept_compression_encodings.enabled(CompressionEncoding::Gzip) || (accept_encodings.enabled(CompressionEncoding::Gzip) && seen(CompressionEncoding::Gzip, it.index@ as int)))',
+             'this.accept_compression_encodings.enabled(CompressionEncoding::Deflate) <==> (self.accept_compression_encodings.enabled(CompressionEncoding::Deflate) || (accept_encodings.enabled(CompressionEncoding::Deflate) && seen(CompressionEncoding::Deflate, it.index@ as int)))',
+             'this.accept_compression_encodings.enabled(CompressionEncoding::Zstd) <==> (self.accept_compression_encodings.enabled(CompressionEncoding::Zstd) || (accept_encodings.enabled(CompressionEncoding::Zstd) && seen(CompressionEncoding::Zstd, it.index@ as int)))',
+             'this.send_compression_encodings.enabled(CompressionEncoding::Gzip) <==> (self.send_compression_encodings.enabled(CompressionEncoding::Gzip) || (send_encodings.enabled(CompressionEncoding::Gzip) && seen(CompressionEncoding::Gzip, it.index@ as int)))',
+             'this.send_compression_encodings.enabled(CompressionEncoding::Deflate) <==> (self.send_compression_encodings.enabled(CompressionEncoding::Deflate) || (send_encodings.enabled(CompressionEncoding::Deflate) && seen(CompressionEncoding::Deflate, it.index@ as int)))',
+             'this.send_compression_encodings.enabled(CompressionEncoding::Zstd) <==> (self.send_compression_encodings.enabled(CompressionEncoding::Zstd) || (send_encodings.enabled(CompressionEncoding::Zstd) && seen(CompressionEncoding::Zstd, it.index@ as int)))',
+         ])},
+         ensures=[Clause('G7_both_sets_gain_exactly_the_encodings_of_the_given_configuration',
+                         '(r.accept_compression_encodings.enabled(CompressionEncoding::Gzip) <==> (self.accept_compression_encodings.enabled(CompressionEncoding::Gzip) || accept_encodings.enabled(CompressionEncoding::Gzip))) && (r.accept_compression_encodings.enabled(CompressionEncoding::Deflate) <==> (self.accept_compression_encodings.enabled(CompressionEncoding::Deflate) || accept_encodings.enabled(CompressionEncoding::Deflate))) && (r.accept_compression_encodings.enabled(CompressionEncoding::Zstd) <==> (self.accept_compression_encodings.enabled(CompressionEncoding::Zstd) || accept_encodings.enabled(CompressionEncoding::Zstd))) && (r.send_compression_encodings.enabled(CompressionEncoding::Gzip) <==> (self.send_compression_encodings.enabled(CompressionEncoding::Gzip) || send_encodings.enabled(CompressionEncoding::Gzip))) && (r.send_compression_encodings.enabled(CompressionEncoding::Deflate) <==> (self.send_compression_encodings.enabled(CompressionEncoding::Deflate) || send_encodings.enabled(CompressionEncoding::Deflate))) && (r.send_compression_encodings.enabled(CompressionEncoding::Zstd) <==> (self.send_compression_encodings.enabled(CompressionEncoding::Zstd) || send_encodings.enabled(CompressionEncoding::Zstd))) && r.codec == self.codec && r.max_decoding_message_size == self.max_decoding_message_size && r.max_encoding_message_size == self.max_encoding_message_size')])
     u.fn(G, 'request_encoding_if_supported', within=W, props=['C05', 'C02'],
          ensures=[Clause('E1_the_request_encoding_is_checked_against_the_ACCEPT_set',
                          '''(encoding_refused(request.headers@, self.accept_compression_encodings) ==> (r matches Err(st) && st.code == Code::Unimplemented))
